@@ -8,8 +8,12 @@
   property prescribes, except (F1) a maker that survives a visit without being replenished is
   re-queued at the back instead of keeping its place, and (F2) a push of an id that still has a
   ticket in the queue lands on that ticket's position instead of the back.
-  NOT proved (what is missing for the big-step statement "live (match l) = ideal (live l)"): the
-  composition of the per-visit lemmas over the whole loop of one `match_order` call.
+  The per-visit lemmas are composed over the whole loop of one `match_order` call in
+  `C04_match_composed`: on a level without duplicate tickets the call walks the hand-out order as a
+  queue — head first; a visited maker leaves, goes to the back, or is kept aside and re-queued at
+  the very end — so the hand-out order after every operation of a history is characterised exactly,
+  and the only places where it differs from what the property prescribes are F1 (`QStep.back` for a
+  survivor that was not replenished) and F2 (the no-duplicate-ticket hypothesis).
 -/
 import PLV.Lemmas.Queue
 import PLV.Lemmas.LevelInv
@@ -77,6 +81,250 @@ theorem C04_partial {l : Level} (h : l.Inv) :
     (∀ id, live (l.removeOrder id).1 = Fifo.removeAll id (live l)) ∧
     (∀ id n old, l.map.find id = some old → live (l.amend id n).1 = replaceById (old.withReduced n) (live l)) :=
   ⟨fun o ho => C04_add_joins_back h o ho, fun id => C04_cancel id, fun id n _ hf => C04_amend_keeps_place h id n hf⟩
+
+/-! ### one whole match call -/
+
+/-- one step of the abstract queue the match loop walks: the head is visited; it leaves, goes to the
+    back (re-queued: partially filled or replenished), or is kept aside (nothing displayed, nothing
+    to replenish with) -/
+inductive QStep : Nat × List Order × List Order → Nat × List Order × List Order → Prop
+  | leave (rem : Nat) (o : Order) (L aside : List Order) (h0 : rem ≠ 0) (hu : (matchAgainst o rem).updated = none) :
+      QStep (rem, o :: L, aside) ((matchAgainst o rem).remaining, L, aside)
+  | back (rem : Nat) (o u : Order) (L aside : List Order) (h0 : rem ≠ 0) (hu : (matchAgainst o rem).updated = some u)
+      (hp : ¬ ((matchAgainst o rem).consumed = 0 ∧ (matchAgainst o rem).hiddenRed = 0)) :
+      QStep (rem, o :: L, aside) ((matchAgainst o rem).remaining, L ++ [u], aside)
+  | aside (rem : Nat) (o u : Order) (L aside : List Order) (h0 : rem ≠ 0) (hu : (matchAgainst o rem).updated = some u)
+      (hp : (matchAgainst o rem).consumed = 0 ∧ (matchAgainst o rem).hiddenRed = 0) :
+      QStep (rem, o :: L, aside) ((matchAgainst o rem).remaining, L, aside ++ [u])
+
+inductive QSteps : Nat × List Order × List Order → Nat × List Order × List Order → Prop
+  | refl (s) : QSteps s s
+  | tail {s t u} : QSteps s t → QStep t u → QSteps s u
+
+theorem popLive_nodup {m : OMap} {ts : List Id} {o m' ts'} (h : popLive m ts = some (o, m', ts')) (hn : ts.Nodup) :
+    ts'.Nodup ∧ o.id ∉ ts' := by
+  induction ts with
+  | nil => simp [popLive] at h
+  | cons t rest ih =>
+    simp at hn
+    unfold popLive at h
+    split at h
+    · rename_i o' hf
+      simp at h; obtain ⟨rfl, rfl, rfl⟩ := h
+      have := (find_some hf).2
+      exact ⟨hn.2, this ▸ hn.1⟩
+    · exact ih h hn.2
+
+/-- what the loop keeps true of the ticket queue of a level without duplicate or stale-duplicate
+    tickets: tickets and map ids without repetition, the set-aside orders out of both -/
+structure QInv (m : OMap) (ts : List Id) (a : Acc) : Prop where
+  tn : ts.Nodup
+  mn : (ids m).Nodup
+  am : ∀ x ∈ ids a.aside, x ∉ ids m
+  at' : ∀ x ∈ ids a.aside, x ∉ ts
+  an : (ids a.aside).Nodup
+
+
+theorem QInv.popped {m : OMap} {ts : List Id} {a : Acc} (h : QInv m ts a) {o m' ts'}
+    (hp : popLive m ts = some (o, m', ts')) :
+    ts'.Nodup ∧ o.id ∉ ts' ∧ (ids m').Nodup ∧ o.id ∉ ids m' ∧ o.id ∈ ids m ∧ m' = m.erase o.id ∧
+      (∀ x ∈ ts', x ∈ ts) ∧ liveOrder m ts = o :: liveOrder m' ts' := by
+  obtain ⟨h1, h2, _, h4⟩ := popLive_spec hp
+  obtain ⟨n1, n2⟩ := popLive_nodup hp h.tn
+  have hl := pop_liveOrder m ts
+  rw [hp] at hl
+  refine ⟨n1, n2, h2 ▸ nodup_erase _ h.mn, ?_, ?_, h2, h4, hl⟩
+  · rw [h2]; intro hm; exact (mem_ids_erase.1 hm).2 rfl
+  · have := find_some h1; exact this.2 ▸ mem_ids_of_mem this.1
+
+theorem QInv.step_aside {m : OMap} {ts : List Id} {a : Acc} (hi : QInv m ts a) (price : Nat) (taker : Id) {rem : Nat}
+    {o m' ts' u} (hp : popLive m ts = some (o, m', ts')) (hu : (matchAgainst o rem).updated = some u) :
+    QInv m' ts' ((a.visit price taker o (matchAgainst o rem)).pushAside u) := by
+  obtain ⟨n1, n2, n3, n4, n5, e, hsub, _⟩ := hi.popped hp
+  have hid := (ma_stay o u rem hu).1
+  refine ⟨n1, n3, ?_, ?_, ?_⟩
+  · intro x hx
+    simp only [Acc.pushAside, visit_aside, ids_append, ids_cons, ids_nil, List.mem_append, List.mem_cons,
+      List.not_mem_nil, or_false] at hx
+    rcases hx with hx | rfl
+    · rw [e]; intro hm; exact hi.am x hx (mem_ids_erase.1 hm).1
+    · rw [hid]; exact n4
+  · intro x hx
+    simp only [Acc.pushAside, visit_aside, ids_append, ids_cons, ids_nil, List.mem_append, List.mem_cons,
+      List.not_mem_nil, or_false] at hx
+    rcases hx with hx | rfl
+    · intro ht; exact hi.at' x hx (hsub x ht)
+    · rw [hid]; exact n2
+  · simp only [Acc.pushAside, visit_aside, ids_append, ids_cons, ids_nil]
+    rw [List.nodup_append]
+    refine ⟨hi.an, by simp, ?_⟩
+    intro x hx y hy
+    simp at hy; subst hy
+    intro e2; subst e2
+    rw [hid] at hx
+    exact hi.am _ hx n5
+
+theorem QInv.step_back {m : OMap} {ts : List Id} {a : Acc} (hi : QInv m ts a) (price : Nat) (taker : Id) {rem : Nat}
+    {o m' ts' u} (hp : popLive m ts = some (o, m', ts')) (hu : (matchAgainst o rem).updated = some u) :
+    QInv (m'.insert u) (ts' ++ [u.id]) ((a.visit price taker o (matchAgainst o rem)).requeue (matchAgainst o rem).hiddenRed) := by
+  obtain ⟨n1, n2, n3, n4, n5, e, hsub, _⟩ := hi.popped hp
+  have hid := (ma_stay o u rem hu).1
+  refine ⟨?_, nodup_insert u n3, ?_, ?_, by simpa using hi.an⟩
+  · rw [List.nodup_append]
+    refine ⟨n1, by simp, ?_⟩
+    intro x hx y hy; simp at hy; subst hy
+    intro e2; subst e2; exact (hid ▸ n2) hx
+  · intro x hx
+    simp only [requeue_aside, visit_aside] at hx
+    rw [ids_insert]
+    rintro (hm | rfl)
+    · rw [e] at hm; exact hi.am x hx (mem_ids_erase.1 hm).1
+    · rw [hid] at hx; exact hi.am _ hx n5
+  · intro x hx
+    simp only [requeue_aside, visit_aside] at hx
+    simp only [List.mem_append, List.mem_cons, List.not_mem_nil, or_false]
+    rintro (ht | rfl)
+    · exact hi.at' x hx (hsub x ht)
+    · rw [hid] at hx; exact hi.am _ hx n5
+
+theorem QInv.step_leave {m : OMap} {ts : List Id} {a : Acc} (hi : QInv m ts a) (price : Nat) (taker : Id) {rem : Nat}
+    {o m' ts'} (hp : popLive m ts = some (o, m', ts')) :
+    QInv m' ts' ((a.visit price taker o (matchAgainst o rem)).leave o (matchAgainst o rem).hiddenRed) := by
+  obtain ⟨n1, n2, n3, n4, n5, e, hsub, _⟩ := hi.popped hp
+  refine ⟨n1, n3, ?_, ?_, by simpa using hi.an⟩
+  · intro x hx
+    simp only [leave_aside, visit_aside] at hx
+    rw [e]; intro hm; exact hi.am x hx (mem_ids_erase.1 hm).1
+  · intro x hx
+    simp only [leave_aside, visit_aside] at hx
+    intro ht; exact hi.at' x hx (hsub x ht)
+
+/-- **the match loop is a sweep of the hand-out queue**: on a level whose ticket queue has no
+    duplicate tickets, the loop of `match_order` performs, visit by visit, exactly the abstract queue
+    steps `QStep` on the hand-out order — head first; leave, go to the back, or be kept aside -/
+theorem C04_loop_sweeps (price : Nat) (taker : Id) (rem0 : Nat) (m0 : OMap) (ts0 : List Id) (a0 : Acc)
+    (h0 : QInv m0 ts0 a0) :
+    let res := matchLoop price taker rem0 m0 ts0 a0
+    QInv res.2.1 res.2.2.1 res.2.2.2 ∧
+      QSteps (rem0, liveOrder m0 ts0, a0.aside) (res.1, liveOrder res.2.1 res.2.2.1, res.2.2.2.aside) := by
+  have := matchLoop_ind price taker
+    (fun rem m ts a => QInv m ts a ∧ QSteps (rem0, liveOrder m0 ts0, a0.aside) (rem, liveOrder m ts, a.aside))
+    ?hnone ?haside ?hrequeue ?hleave rem0 m0 ts0 a0 ⟨h0, QSteps.refl _⟩
+  · exact this
+  case hnone =>
+    intro rem m ts a _ hp ⟨hi, hs⟩
+    have hl := pop_liveOrder m ts
+    rw [hp] at hl
+    refine ⟨⟨List.nodup_nil, hi.mn, hi.am, fun _ _ => List.not_mem_nil, hi.an⟩, ?_⟩
+    simpa [liveOrder, hl] using hs
+  case haside =>
+    intro rem m ts a o m' ts' u hz hp hu hs ⟨hi, hst⟩
+    obtain ⟨n1, n2, n3, n4, n5, e, hsub, hl⟩ := hi.popped hp
+    have hid := (ma_stay o u rem hu).1
+    refine ⟨⟨n1, n3, ?_, ?_, ?_⟩, ?_⟩
+    · intro x hx
+      simp only [Acc.pushAside, visit_aside, ids_append, ids_cons, ids_nil, List.mem_append, List.mem_cons,
+        List.not_mem_nil, or_false] at hx
+      rcases hx with hx | rfl
+      · rw [e]; intro hm; exact hi.am x hx (mem_ids_erase.1 hm).1
+      · rw [hid]; exact n4
+    · intro x hx
+      simp only [Acc.pushAside, visit_aside, ids_append, ids_cons, ids_nil, List.mem_append, List.mem_cons,
+        List.not_mem_nil, or_false] at hx
+      rcases hx with hx | rfl
+      · intro ht; exact hi.at' x hx (hsub x ht)
+      · rw [hid]; exact n2
+    · simp only [Acc.pushAside, visit_aside, ids_append, ids_cons, ids_nil]
+      rw [List.nodup_append]
+      refine ⟨hi.an, by simp, ?_⟩
+      intro x hx y hy
+      simp at hy; subst hy
+      intro e2; subst e2
+      rw [hid] at hx
+      exact hi.am _ hx n5
+    · rw [hl] at hst
+      have := QSteps.tail hst (QStep.aside rem o u (liveOrder m' ts') a.aside hz hu hs)
+      simpa [Acc.pushAside] using this
+  case hrequeue =>
+    intro rem m ts a o m' ts' u hz hp hu hs ⟨hi, hst⟩
+    obtain ⟨n1, n2, n3, n4, n5, e, hsub, hl⟩ := hi.popped hp
+    have hid := (ma_stay o u rem hu).1
+    have hpush := liveOrder_push_fresh u ts' m' (hid ▸ n2) (hid ▸ n4)
+    refine ⟨⟨?_, nodup_insert u n3, ?_, ?_, by simpa using hi.an⟩, ?_⟩
+    · rw [List.nodup_append]
+      refine ⟨n1, by simp, ?_⟩
+      intro x hx y hy; simp at hy; subst hy
+      intro e2; subst e2; exact (hid ▸ n2) hx
+    · intro x hx
+      simp only [requeue_aside, visit_aside] at hx
+      rw [ids_insert]
+      rintro (hm | rfl)
+      · rw [e] at hm; exact hi.am x hx (mem_ids_erase.1 hm).1
+      · rw [hid] at hx; exact hi.am _ hx n5
+    · intro x hx
+      simp only [requeue_aside, visit_aside] at hx
+      simp only [List.mem_append, List.mem_cons, List.not_mem_nil, or_false]
+      rintro (ht | rfl)
+      · exact hi.at' x hx (hsub x ht)
+      · rw [hid] at hx; exact hi.am _ hx n5
+    · rw [hl] at hst
+      have := QSteps.tail hst (QStep.back rem o u (liveOrder m' ts') a.aside hz hu hs)
+      simpa [hpush] using this
+  case hleave =>
+    intro rem m ts a o m' ts' hz hp hu ⟨hi, hst⟩
+    obtain ⟨n1, n2, n3, n4, n5, e, hsub, hl⟩ := hi.popped hp
+    refine ⟨⟨n1, n3, ?_, ?_, by simpa using hi.an⟩, ?_⟩
+    · intro x hx
+      simp only [leave_aside, visit_aside] at hx
+      rw [e]; intro hm; exact hi.am x hx (mem_ids_erase.1 hm).1
+    · intro x hx
+      simp only [leave_aside, visit_aside] at hx
+      intro ht; exact hi.at' x hx (hsub x ht)
+    · rw [hl] at hst
+      have := QSteps.tail hst (QStep.leave rem o (liveOrder m' ts') a.aside hz hu)
+      simpa using this
+
+
+/-- re-queueing the set-aside orders appends them, in order, to the hand-out order -/
+theorem requeueAside_live (aside : List Order) : ∀ (m : OMap) (ts : List Id),
+    (∀ x ∈ ids aside, x ∉ ids m) → (∀ x ∈ ids aside, x ∉ ts) → (ids aside).Nodup →
+    liveOrder (requeueAside m ts aside).1 (requeueAside m ts aside).2 = liveOrder m ts ++ aside := by
+  induction aside with
+  | nil => intro m ts _ _ _; simp [requeueAside]
+  | cons o rest ih =>
+    intro m ts hm ht hn
+    simp only [ids_cons, List.nodup_cons] at hn
+    have h1 : o.id ∉ ids m := hm o.id (by simp)
+    have h2 : o.id ∉ ts := ht o.id (by simp)
+    simp only [requeueAside]
+    rw [ih (m.insert o) (ts ++ [o.id]) ?_ ?_ hn.2, liveOrder_push_fresh o ts m h2 h1]
+    · simp
+    · intro x hx
+      rw [ids_insert]
+      rintro (hxm | rfl)
+      · exact hm x (by simp [hx]) hxm
+      · exact hn.1 hx
+    · intro x hx
+      simp only [List.mem_append, List.mem_cons, List.not_mem_nil, or_false]
+      rintro (hxt | rfl)
+      · exact ht x (by simp [hx]) hxt
+      · exact hn.1 hx
+
+/-- **one whole `match_order` call, composed**: on a well-formed level whose ticket queue holds no
+    duplicate tickets, the call walks the hand-out order as a queue (`QSteps`: head first; a visited
+    maker leaves, goes to the back, or is kept aside) and afterwards the orders kept aside are at the
+    very back, in the order they were stepped over. Together with `C04_partial` this characterises
+    the hand-out order after every operation; the deviation from the property is visible in `QStep.back`:
+    a partially filled survivor goes to the back (F1) where the property wants it to keep its place. -/
+theorem C04_match_composed {l : Level} (hn : l.tickets.Nodup) (hm : (ids l.map).Nodup) (q : Nat) (taker : Id) (g : Nat) :
+    ∃ rem' L' aside', QSteps (q, live l, []) (rem', L', aside') ∧ live (l.matchOrder q taker g).1 = L' ++ aside' := by
+  have h0 : QInv l.map l.tickets { vis := l.vis, hid := l.hid, cnt := l.cnt, stats := l.stats, g := g } :=
+    ⟨hn, hm, by simp, by simp, by simp⟩
+  obtain ⟨hi, hs⟩ := C04_loop_sweeps l.price taker q l.map l.tickets _ h0
+  refine ⟨_, _, _, hs, ?_⟩
+  simp only [live, Level.matchOrder, Level.finishMatch]
+  exact requeueAside_live _ _ _ hi.am hi.at' hi.an
+
 
 /-! ### the full property fails: concrete histories (model = crate, replayed by the corpus) -/
 
